@@ -696,6 +696,7 @@ fn regions(wire: &[u8], kind: &str) -> Option<Vec<(&'static str, usize, usize)>>
 // receiver
 // ------------------------------------------------------------------------------------------
 
+#[derive(Clone)]
 struct WireView {
     /// protected bstr content, unprotected ignored
     prot: Vec<u8>,
@@ -828,137 +829,201 @@ fn recv_recipients(rx: &mut Receiver, rs: &[coset::CoseRecipient], views: &[Wire
     Ok(())
 }
 
-fn receive(kind: &str, wire: &[u8], tagged: bool, plans: &[Plan], obs: &mut Vec<Obs>, st: &mut RunStats) -> Result<bool, Violation> {
-    // independent view of the wire
-    let root = match refcbor::read_exact(wire) {
-        Ok(r) => r,
-        Err(_) => return Ok(false),
-    };
+/// View of wire bytes (tag stripped if `tagged`), None if the harness reader cannot follow them.
+fn wire_view(kind: &str, wire: &[u8], tagged: bool) -> Option<WireView> {
+    let root = refcbor::read_exact(wire).ok()?;
     let body = match (&root.kind, tagged) {
         (Kind::Tag(_, inner), true) => (**inner).clone(),
         (_, false) => root.clone(),
-        _ => return Ok(false),
+        _ => return None,
     };
-    let w = view(&body, kind);
-    macro_rules! decode {
-        ($t:ty) => {{
-            let r = guarded(|| if tagged { tagged_decode::<$t>(wire) } else { <$t>::from_slice(wire) });
-            match r {
+    view(&body, kind)
+}
+
+fn verify_sign1(rx: &mut Receiver, tag: &str, m: &coset::CoseSign1, w: &WireView, plans: &[Plan]) -> Result<(), Violation> {
+    let stored = w.slot.clone().unwrap_or_default();
+    for plan in plans {
+        let t = Tuple { ctx: "Signature1".into(), body: w.prot.clone(), sign: None, aad: plan.aad.clone(), payload: norm(&w.payload) };
+        rx.check(&format!("{}verify_signature", tag), t, &stored, plan, |v| unit(m.verify_signature(&plan.aad, as_verify(v))))?;
+        if w.payload.is_none() && m.payload.is_none() {
+            let t = Tuple { ctx: "Signature1".into(), body: w.prot.clone(), sign: None, aad: plan.aad.clone(), payload: Some(plan.detached.clone()) };
+            rx.check(&format!("{}verify_detached_signature", tag), t, &stored, plan, |v| unit(m.verify_detached_signature(&plan.detached, &plan.aad, as_verify(v))))?;
+        }
+    }
+    Ok(())
+}
+
+fn verify_sign(rx: &mut Receiver, tag: &str, m: &coset::CoseSign, w: &WireView, plans: &[Plan]) -> Result<(), Violation> {
+    if w.nested.len() != m.signatures.len() {
+        return Err(Violation::new("C06.I1", format!("{}wire carries {} signatures but the decoded message has {}", tag, w.nested.len(), m.signatures.len())));
+    }
+    for plan in plans {
+        for (i, sw) in w.nested.iter().enumerate() {
+            let stored = sw.slot.clone().unwrap_or_default();
+            let t = Tuple { ctx: "Signature".into(), body: w.prot.clone(), sign: Some(sw.prot.clone()), aad: plan.aad.clone(), payload: norm(&w.payload) };
+            rx.check(&format!("{}verify_signature({})", tag, i), t, &stored, plan, |v| unit(m.verify_signature(i, &plan.aad, as_verify(v))))?;
+            if w.payload.is_none() && m.payload.is_none() {
+                let t = Tuple { ctx: "Signature".into(), body: w.prot.clone(), sign: Some(sw.prot.clone()), aad: plan.aad.clone(), payload: Some(plan.detached.clone()) };
+                rx.check(&format!("{}verify_detached_signature({})", tag, i), t, &stored, plan, |v| {
+                    unit(m.verify_detached_signature(i, &plan.detached, &plan.aad, as_verify(v)))
+                })?;
+            }
+        }
+    }
+    Ok(())
+}
+
+fn verify_mac(rx: &mut Receiver, tag: &str, m: &coset::CoseMac, w: &WireView, plans: &[Plan]) -> Result<(), Violation> {
+    for plan in plans {
+        if let (Some(p), Some(_)) = (&w.payload, &m.payload) {
+            let t = Tuple { ctx: "MAC".into(), body: w.prot.clone(), sign: None, aad: plan.aad.clone(), payload: Some(p.clone()) };
+            rx.check(&format!("{}verify_tag", tag), t, &w.slot.clone().unwrap_or_default(), plan, |v| unit(m.verify_tag(&plan.aad, as_verify(v))))?;
+        }
+        recv_recipients(rx, &m.recipients, &w.nested, tag, plan)?;
+    }
+    Ok(())
+}
+
+fn verify_mac0(rx: &mut Receiver, tag: &str, m: &coset::CoseMac0, w: &WireView, plans: &[Plan]) -> Result<(), Violation> {
+    for plan in plans {
+        if let (Some(p), Some(_)) = (&w.payload, &m.payload) {
+            let t = Tuple { ctx: "MAC0".into(), body: w.prot.clone(), sign: None, aad: plan.aad.clone(), payload: Some(p.clone()) };
+            rx.check(&format!("{}verify_tag", tag), t, &w.slot.clone().unwrap_or_default(), plan, |v| unit(m.verify_tag(&plan.aad, as_verify(v))))?;
+        }
+    }
+    Ok(())
+}
+
+fn verify_encrypt(rx: &mut Receiver, tag: &str, m: &coset::CoseEncrypt, w: &WireView, plans: &[Plan]) -> Result<(), Violation> {
+    for plan in plans {
+        if let (Some(stored), Some(_)) = (&w.slot, &m.ciphertext) {
+            let t = Tuple { ctx: "Encrypt".into(), body: w.prot.clone(), sign: None, aad: plan.aad.clone(), payload: None };
+            rx.check(&format!("{}decrypt", tag), t, stored, plan, |v| m.decrypt(&plan.aad, |a, b| v(a, b)))?;
+        }
+        recv_recipients(rx, &m.recipients, &w.nested, tag, plan)?;
+    }
+    Ok(())
+}
+
+fn verify_encrypt0(rx: &mut Receiver, tag: &str, m: &coset::CoseEncrypt0, w: &WireView, plans: &[Plan]) -> Result<(), Violation> {
+    for plan in plans {
+        if let (Some(stored), Some(_)) = (&w.slot, &m.ciphertext) {
+            let t = Tuple { ctx: "Encrypt0".into(), body: w.prot.clone(), sign: None, aad: plan.aad.clone(), payload: None };
+            rx.check(&format!("{}decrypt", tag), t, stored, plan, |v| m.decrypt(&plan.aad, |a, b| v(a, b)))?;
+        }
+    }
+    Ok(())
+}
+
+fn verify_recipient(rx: &mut Receiver, tag: &str, m: &coset::CoseRecipient, w: &WireView, plans: &[Plan]) -> Result<(), Violation> {
+    for plan in plans {
+        recv_recipients(rx, std::slice::from_ref(m), std::slice::from_ref(w), tag, plan)?;
+    }
+    Ok(())
+}
+
+/// Receiver: decode, then verify the decoded message, a clone of it, the message after a second
+/// encode+decode hop, and the message after the documented in-place edit
+/// (`protected.original_data = None; protected.header = <another header>`).
+#[allow(clippy::too_many_arguments)]
+fn receive(
+    kind: &str,
+    wire: &[u8],
+    tagged: bool,
+    plans: &[Plan],
+    replacement: Option<&crate::model::MHeader>,
+    obs: &mut Vec<Obs>,
+    st: &mut RunStats,
+) -> Result<bool, Violation> {
+    let w = match wire_view(kind, wire, tagged) {
+        Some(w) => w,
+        None => {
+            // the harness reader cannot follow the (tampered) bytes; if coset still decodes them the
+            // message is simply not judged
+            return Ok(false);
+        }
+    };
+    let mut rx = Receiver { obs, st, n: 0 };
+    macro_rules! lifecycle {
+        ($t:ty, $verify:ident, $dec:expr, $enc:expr) => {{
+            let dec = $dec;
+            let enc = $enc;
+            let m: $t = match guarded(|| dec(wire)) {
                 Ok(Ok(m)) => m,
                 Ok(Err(_)) => return Ok(false),
                 Err(p) => return Err(Violation::new("C06.I5", format!("decoding the wire bytes panicked: {}", p))),
+            };
+            $verify(&mut rx, "", &m, &w, plans)?;
+            let first = &plans[..plans.len().min(1)];
+            // a clone must verify exactly like the original
+            let c = match guarded(|| m.clone()) {
+                Ok(c) => c,
+                Err(p) => return Err(Violation::new("C06.I5", format!("cloning the decoded message panicked: {}", p))),
+            };
+            $verify(&mut rx, "clone.", &c, &w, first)?;
+            // second hop: re-encode the decoded message, decode again
+            match guarded(|| enc(c)) {
+                Ok(Ok(bytes2)) => {
+                    if let (Ok(Ok(m2)), Some(w2)) = (guarded(|| dec(&bytes2)), wire_view(kind, &bytes2, tagged)) {
+                        rx.st.inc("probe:second-hop-verified");
+                        $verify(&mut rx, "second-hop.", &m2, &w2, first)?;
+                    } else {
+                        return Err(Violation::new("C06.I5", format!("the re-encoding of a decoded message is not accepted again: {}", hex_short(&bytes2))));
+                    }
+                }
+                Ok(Err(e)) => return Err(Violation::new("C06.I5", format!("a decoded message does not re-encode: {:?}", e))),
+                Err(p) => return Err(Violation::new("C06.I5", format!("re-encoding a decoded message panicked: {}", p))),
+            }
+            // documented in-place edit of a decoded message: drop the wire bytes, replace the header
+            if let Some(h) = replacement {
+                let mut mm = m.clone();
+                mm.protected.original_data = None;
+                mm.protected.header = h.to_coset();
+                let mut wm = w.clone();
+                wm.prot = enc_protected(h).map_err(|e| Violation::new("C06.I5", format!("replacement header: {}", e)))?;
+                rx.st.inc("probe:edited-after-decode-verified");
+                $verify(&mut rx, "edited.", &mm, &wm, first)?;
             }
         }};
     }
-    let mut rx = Receiver { obs, st, n: 0 };
     match kind {
-        "CoseSign1" => {
-            let m = decode!(coset::CoseSign1);
-            let w = match w {
-                Some(w) => w,
-                None => return Ok(false),
-            };
-            let stored = w.slot.clone().unwrap_or_default();
-            for plan in plans {
-                let t = Tuple { ctx: "Signature1".into(), body: w.prot.clone(), sign: None, aad: plan.aad.clone(), payload: norm(&w.payload) };
-                rx.check("verify_signature", t, &stored, plan, |v| unit(m.verify_signature(&plan.aad, as_verify(v))))?;
-                if w.payload.is_none() && m.payload.is_none() {
-                    let t = Tuple { ctx: "Signature1".into(), body: w.prot.clone(), sign: None, aad: plan.aad.clone(), payload: Some(plan.detached.clone()) };
-                    rx.check("verify_detached_signature", t, &stored, plan, |v| unit(m.verify_detached_signature(&plan.detached, &plan.aad, as_verify(v))))?;
-                }
-            }
-        }
-        "CoseSign" => {
-            let m = decode!(coset::CoseSign);
-            let w = match w {
-                Some(w) => w,
-                None => return Ok(false),
-            };
-            if w.nested.len() != m.signatures.len() {
-                return Err(Violation::new("C06.I1", format!("wire carries {} signatures but the decoded message has {}", w.nested.len(), m.signatures.len())));
-            }
-            for plan in plans {
-                for (i, sw) in w.nested.iter().enumerate() {
-                    let stored = sw.slot.clone().unwrap_or_default();
-                    let t = Tuple { ctx: "Signature".into(), body: w.prot.clone(), sign: Some(sw.prot.clone()), aad: plan.aad.clone(), payload: norm(&w.payload) };
-                    rx.check(&format!("verify_signature({})", i), t, &stored, plan, |v| unit(m.verify_signature(i, &plan.aad, as_verify(v))))?;
-                    if w.payload.is_none() && m.payload.is_none() {
-                        let t = Tuple { ctx: "Signature".into(), body: w.prot.clone(), sign: Some(sw.prot.clone()), aad: plan.aad.clone(), payload: Some(plan.detached.clone()) };
-                        rx.check(&format!("verify_detached_signature({})", i), t, &stored, plan, |v| {
-                            unit(m.verify_detached_signature(i, &plan.detached, &plan.aad, as_verify(v)))
-                        })?;
-                    }
-                }
-            }
-        }
-        "CoseMac" => {
-            let m = decode!(coset::CoseMac);
-            let w = match w {
-                Some(w) => w,
-                None => return Ok(false),
-            };
-            for plan in plans {
-                if let (Some(p), Some(_)) = (&w.payload, &m.payload) {
-                    let t = Tuple { ctx: "MAC".into(), body: w.prot.clone(), sign: None, aad: plan.aad.clone(), payload: Some(p.clone()) };
-                    rx.check("verify_tag", t, &w.slot.clone().unwrap_or_default(), plan, |v| unit(m.verify_tag(&plan.aad, as_verify(v))))?;
-                }
-                recv_recipients(&mut rx, &m.recipients, &w.nested, "", plan)?;
-            }
-        }
-        "CoseMac0" => {
-            let m = decode!(coset::CoseMac0);
-            let w = match w {
-                Some(w) => w,
-                None => return Ok(false),
-            };
-            for plan in plans {
-                if let (Some(p), Some(_)) = (&w.payload, &m.payload) {
-                    let t = Tuple { ctx: "MAC0".into(), body: w.prot.clone(), sign: None, aad: plan.aad.clone(), payload: Some(p.clone()) };
-                    rx.check("verify_tag", t, &w.slot.clone().unwrap_or_default(), plan, |v| unit(m.verify_tag(&plan.aad, as_verify(v))))?;
-                }
-            }
-        }
-        "CoseEncrypt" => {
-            let m = decode!(coset::CoseEncrypt);
-            let w = match w {
-                Some(w) => w,
-                None => return Ok(false),
-            };
-            for plan in plans {
-                if let (Some(stored), Some(_)) = (&w.slot, &m.ciphertext) {
-                    let t = Tuple { ctx: "Encrypt".into(), body: w.prot.clone(), sign: None, aad: plan.aad.clone(), payload: None };
-                    rx.check("decrypt", t, stored, plan, |v| m.decrypt(&plan.aad, |a, b| v(a, b)))?;
-                }
-                recv_recipients(&mut rx, &m.recipients, &w.nested, "", plan)?;
-            }
-        }
-        "CoseEncrypt0" => {
-            let m = decode!(coset::CoseEncrypt0);
-            let w = match w {
-                Some(w) => w,
-                None => return Ok(false),
-            };
-            for plan in plans {
-                if let (Some(stored), Some(_)) = (&w.slot, &m.ciphertext) {
-                    let t = Tuple { ctx: "Encrypt0".into(), body: w.prot.clone(), sign: None, aad: plan.aad.clone(), payload: None };
-                    rx.check("decrypt", t, stored, plan, |v| m.decrypt(&plan.aad, |a, b| v(a, b)))?;
-                }
-            }
-        }
-        "CoseRecipient" => {
-            let m = match guarded(|| coset::CoseRecipient::from_slice(wire)) {
-                Ok(Ok(m)) => m,
-                Ok(Err(_)) => return Ok(false),
-                Err(p) => return Err(Violation::new("C06.I5", format!("decoding the wire bytes panicked: {}", p))),
-            };
-            let w = match w {
-                Some(w) => w,
-                None => return Ok(false),
-            };
-            for plan in plans {
-                recv_recipients(&mut rx, std::slice::from_ref(&m), std::slice::from_ref(&w), "", plan)?;
-            }
-        }
+        "CoseSign1" => lifecycle!(
+            coset::CoseSign1,
+            verify_sign1,
+            |b: &[u8]| if tagged { tagged_decode::<coset::CoseSign1>(b) } else { coset::CoseSign1::from_slice(b) },
+            |m: coset::CoseSign1| if tagged { m.to_tagged_vec() } else { m.to_vec() }
+        ),
+        "CoseSign" => lifecycle!(
+            coset::CoseSign,
+            verify_sign,
+            |b: &[u8]| if tagged { tagged_decode::<coset::CoseSign>(b) } else { coset::CoseSign::from_slice(b) },
+            |m: coset::CoseSign| if tagged { m.to_tagged_vec() } else { m.to_vec() }
+        ),
+        "CoseMac" => lifecycle!(
+            coset::CoseMac,
+            verify_mac,
+            |b: &[u8]| if tagged { tagged_decode::<coset::CoseMac>(b) } else { coset::CoseMac::from_slice(b) },
+            |m: coset::CoseMac| if tagged { m.to_tagged_vec() } else { m.to_vec() }
+        ),
+        "CoseMac0" => lifecycle!(
+            coset::CoseMac0,
+            verify_mac0,
+            |b: &[u8]| if tagged { tagged_decode::<coset::CoseMac0>(b) } else { coset::CoseMac0::from_slice(b) },
+            |m: coset::CoseMac0| if tagged { m.to_tagged_vec() } else { m.to_vec() }
+        ),
+        "CoseEncrypt" => lifecycle!(
+            coset::CoseEncrypt,
+            verify_encrypt,
+            |b: &[u8]| if tagged { tagged_decode::<coset::CoseEncrypt>(b) } else { coset::CoseEncrypt::from_slice(b) },
+            |m: coset::CoseEncrypt| if tagged { m.to_tagged_vec() } else { m.to_vec() }
+        ),
+        "CoseEncrypt0" => lifecycle!(
+            coset::CoseEncrypt0,
+            verify_encrypt0,
+            |b: &[u8]| if tagged { tagged_decode::<coset::CoseEncrypt0>(b) } else { coset::CoseEncrypt0::from_slice(b) },
+            |m: coset::CoseEncrypt0| if tagged { m.to_tagged_vec() } else { m.to_vec() }
+        ),
+        "CoseRecipient" => lifecycle!(coset::CoseRecipient, verify_recipient, |b: &[u8]| coset::CoseRecipient::from_slice(b), |m: coset::CoseRecipient| m.to_vec()),
         _ => {}
     }
     Ok(true)
@@ -1017,6 +1082,8 @@ impl Engine for C06 {
             let region = ["protected", "unprotected", "payload", "slot", "nested"][rng.below(5)];
             t.push(Step::new("fault", "flip", vec![Arg::S(region.into()), Arg::I(rng.below(1000) as i128), Arg::I(rng.below(8) as i128)]));
         }
+        // the receiver also edits the decoded message the documented way and verifies again
+        t.push(Step::new("edit", "replace-protected", vec![a_hdr(&mut rng)]));
         // verify plan
         t.push(Step::new("verify", "same", vec![Arg::I(1)]));
         if rng.bool() {
@@ -1221,7 +1288,11 @@ impl Engine for C06 {
                 st.inc("fault:verifier-result(Err)");
             }
         }
-        let decoded = match receive(&kind, &delivered, tagged, &plans, &mut obs, st) {
+        let replacement = match t.steps.iter().find(|s| s.kind == "edit") {
+            Some(e) => Some(header_from_arg(e, 0)?),
+            None => None,
+        };
+        let decoded = match receive(&kind, &delivered, tagged, &plans, replacement.as_ref(), &mut obs, st) {
             Ok(d) => d,
             Err(v) => return Ok(Some(v)),
         };
